@@ -233,7 +233,8 @@ Finish ==
   /\ pc' = "done"
   /\ UNCHANGED <<sc, spawned, ts, sched>>
 
-Done == pc = "done" /\ UNCHANGED vars
+\* terminal stuttering step (absent in generation mode, so that a simulated behaviour ends, and prints its CASE, once)
+Done == pc = "done" /\ ~Eager /\ UNCHANGED vars
 
 Next == \/ \E nm \in {Unknown} \cup Range(Pool) : AddCall(nm)
         \/ ToTools
